@@ -160,3 +160,25 @@ pub fn genuine_pubkey(odd: bool) -> elements::secp256k1_zkp::PublicKey {
         }
     }
 }
+
+/// A `Secp256k1<All>` handle for harnesses. `Secp256k1::new()` cannot be used: with the `rand-std`
+/// feature it seeds from `rand::thread_rng()` (ChaCha via SIMD intrinsics), on which kani-compiler 0.68
+/// panics (intrinsics.rs:243). The libsecp contract models never look at the context, so the handle
+/// wraps a pointer to a static buffer.
+pub fn model_secp() -> core::mem::ManuallyDrop<elements::secp256k1_zkp::Secp256k1<elements::secp256k1_zkp::All>> {
+    // native replay (cargo kani playback): a real context, real libsecp
+    #[cfg(verif_native)]
+    {
+        return core::mem::ManuallyDrop::new(elements::secp256k1_zkp::Secp256k1::new());
+    }
+    #[cfg(not(verif_native))]
+    {
+        static mut CTX_BUF: [u8; 64] = [0u8; 64];
+        unsafe {
+            let p = core::ptr::NonNull::new_unchecked(core::ptr::addr_of_mut!(CTX_BUF) as *mut elements::secp256k1_zkp::ffi::Context);
+            // from_raw_all yields Secp256k1<AllPreallocated>; the struct is { ctx pointer, PhantomData<C> } for every C
+            let pre = elements::secp256k1_zkp::Secp256k1::from_raw_all(p);
+            core::mem::transmute::<_, core::mem::ManuallyDrop<elements::secp256k1_zkp::Secp256k1<elements::secp256k1_zkp::All>>>(pre)
+        }
+    }
+}
